@@ -44,6 +44,8 @@ impl Prop {
 pub enum Scn {
     C11(c11::C11Scenario),
     Hist(hist::HistScenario),
+    /// scripted working-directory scenario (runs alone: chdir is process-global)
+    Cwd { seed: u64, variant: u64 },
 }
 
 pub struct RunOut {
@@ -120,6 +122,7 @@ pub fn run(prop: Prop, s: &Scn) -> RunOut {
             }
         }
         Scn::Hist(s) => hist::run(prop, s),
+        Scn::Cwd { seed, variant } => crate::hist_run::run_cwd(*seed, *variant),
     }
 }
 
@@ -134,6 +137,7 @@ pub fn shrink_candidates(s: &Scn) -> (Vec<Scn>, usize) {
             let (v, b) = hist::shrink_candidates(s);
             (v.into_iter().map(Scn::Hist).collect(), b)
         }
+        Scn::Cwd { .. } => (Vec::new(), 0),
     }
 }
 
@@ -141,6 +145,11 @@ pub fn to_json(s: &Scn) -> J {
     match s {
         Scn::C11(s) => J::obj().set("kind", J::s("c11")).set("c11", c11::to_json(s)),
         Scn::Hist(s) => J::obj().set("kind", J::s("history")).set("history", hist::to_json(s)),
+        Scn::Cwd { seed, variant } => J::obj()
+            .set("kind", J::s("cwd"))
+            .set("seed", J::u_str(*seed))
+            .set("variant", J::u(*variant))
+            .set("what", J::s("scripted scenario: parser created in directory A loads relative paths, the process changes to directory B where the same names are other files, loads again; see hist_run::run_cwd")),
     }
 }
 
@@ -150,6 +159,10 @@ pub fn from_json(j: &J) -> Result<Scn, String> {
         Some("history") => Ok(Scn::Hist(hist::from_json(
             j.get("history").ok_or("history missing")?,
         )?)),
+        Some("cwd") => Ok(Scn::Cwd {
+            seed: j.get("seed").and_then(|s| s.as_u64()).ok_or("cwd.seed")?,
+            variant: j.get("variant").and_then(|s| s.as_u64()).ok_or("cwd.variant")?,
+        }),
         _ => Err("scenario.kind unknown".to_owned()),
     }
 }
@@ -162,5 +175,6 @@ pub fn size(s: &Scn) -> (usize, usize) {
             s.files.iter().map(|(_, c)| c.text().len()).sum(),
         ),
         Scn::Hist(s) => hist::size(s),
+        Scn::Cwd { .. } => (8, 0),
     }
 }
